@@ -62,13 +62,13 @@ PROPS["C11"] = [
 PROPS["C11"] += [
     H("selector", "c11_slice_len%d" % n, tiers="t", funcs=["query::selector::process_slice"],
       symbolic="start,end,step each absent or in [-(2^53-1), 2^53-1]", shape="array of %d markers (K = 8 allocation regime)" % n, est=e, timeout=2400)
-    for n, e in ((5, 300), (6, 400), (7, 550), (8, 650))
+    for n, e in ((5, 300), (6, 400), (7, 550))
 ] + [
     H("selector", "c11_index_len8", tiers="t", funcs=["query::selector::process_index"], symbolic="i in [-(2^53-1), 2^53-1]", shape="array of 8 markers (K = 8)", est=10),
 ]
 PROP_INFO["C11"] = {
     "bounds": {"quick": "index: array length in {0,1,3,4}; slice: lengths 0..4; index/start/end/step any I-JSON integer or absent",
-               "thorough": "same plus slice on lengths 5..8 and index on length 8 (K = 8 allocation regime)"},
+               "thorough": "same plus slice on lengths 5..7 and index on length 8 (K = 8 allocation regime)"},
     "outside": ["arrays longer than 4 (quick) / 8 (thorough)", "integers outside the I-JSON range", "the parser's own range check"],
 }
 
